@@ -758,6 +758,8 @@ pub fn c06(rec: &mut Rec, rng: &mut Rng, thorough: bool) {
         let mut accepted: Vec<u8> = vec![]; // what the stream accepted since the last discard
         let small = i % 3 == 0;
         let steps = rng.range(3, 40);
+        let mut dirty = false; // arbitrary input was fed: the parser may be in the middle of something
+        let mut awaiting_body = false;
         for _ in 0..steps {
             match rng.below(10) {
                 0..=2 => {
@@ -770,7 +772,26 @@ pub fn c06(rec: &mut Rec, rng: &mut Rng, thorough: bool) {
                     expected.clear();
                     accepted.clear();
                 }
-                8 if i % 2 == 1 => {
+                7 if i % 4 == 3 && !dirty => {
+                    // an Expect request arrives while output is queued: its 100 Continue joins the queue BEHIND everything
+                    // already enqueued (enqueue order), the body later completes the request without queueing anything
+                    if !awaiting_body {
+                        let rs = d.recv(rec, b"PUT /e HTTP/1.1\r\nExpect: 100-continue\r\nContent-Length: 2\r\n\r\n", 0);
+                        if rs.iter().all(|r| r == "ok") {
+                            expected.extend_from_slice(CONT11);
+                            awaiting_body = true;
+                        } else {
+                            dirty = true;
+                        }
+                    } else {
+                        d.recv(rec, b"ab", 0);
+                        awaiting_body = false;
+                    }
+                    d.popall(rec);
+                    rec.count("c06:expect-interleaved");
+                }
+                8 if i % 2 == 1 && !awaiting_body => {
+                    dirty = true;
                     // input arrives while output is queued (no Expect header, so the read itself queues nothing): a
                     // delivered request, a rejected one, would-block, end of stream — none of them may touch the output side
                     let had = d.pending_write();
@@ -1199,7 +1220,31 @@ pub fn c13(rec: &mut Rec, rng: &mut Rng, thorough: bool) {
                 }
             }
             stream_all.extend_from_slice(&head);
-            let w = drain_writes(&mut d, rec);
+            // the application may answer an EARLIER request at this very moment: the interim response must still go out
+            let app_resp = rng.chance(1, 4);
+            if app_resp {
+                let r = RespSpec { v11: true, code: 200, ops: vec![BOp::Body(b"earlier".to_vec())] };
+                d.enqueue(rec, &r);
+                rec.count("continue:app-response-enqueued-behind");
+            }
+            let w_all = drain_writes(&mut d, rec);
+            // take the application's response out again before looking for interim responses
+            let w: Vec<u8> = if app_resp {
+                let rb = crate::suites::response::serialize(&RespSpec { v11: true, code: 200, ops: vec![BOp::Body(b"earlier".to_vec())] });
+                match w_all.windows(rb.len()).position(|x| x == &rb[..]) {
+                    Some(p) => {
+                        let mut v = w_all[..p].to_vec();
+                        v.extend_from_slice(&w_all[p + rb.len()..]);
+                        v
+                    }
+                    None => {
+                        rec.oracle_fail("C06", "an enqueued response was not written", &d.log);
+                        w_all.clone()
+                    }
+                }
+            } else {
+                w_all.clone()
+            };
             let conts = parse_conts(&w);
             let want_conts: Vec<String> = if want { vec![if v11 { "1.1".into() } else { "1.0".into() }] } else { vec![] };
             if conts != want_conts {
@@ -1409,6 +1454,7 @@ pub fn conn_enum(rec: &mut Rec, _rng: &mut Rng, thorough: bool) {
         let mut accepted: Vec<u8> = vec![];
         let mut arrived: Vec<usize> = vec![]; // descriptor tokens in arrival order
         let mut seen_delivered = 0usize;
+        let mut had_parse_error = false;
         for &k in &idx {
             if d.conn.is_none() {
                 break;
@@ -1416,7 +1462,9 @@ pub fn conn_enum(rec: &mut Rec, _rng: &mut Rng, thorough: bool) {
             match alphabet[k] {
                 Op::R(bytes, nf) => {
                     let before = d.tokens.next;
-                    d.recv(rec, bytes, nf);
+                    if d.recv(rec, bytes, nf).iter().any(|r| r.starts_with("parse(")) {
+                        had_parse_error = true;
+                    }
                     arrived.extend(before..d.tokens.next);
                 }
                 Op::Eagain => {
@@ -1484,6 +1532,14 @@ pub fn conn_enum(rec: &mut Rec, _rng: &mut Rng, thorough: bool) {
             }
             if all_files.windows(2).any(|w| w[0] > w[1]) {
                 rec.oracle_fail("C12", "descriptors were handed over out of arrival order", &d.log);
+            }
+            // "never lost": without a parse error (which drops what came with the rejected input) every descriptor that
+            // arrived and was not handed over yet is still held open by the connection
+            if !had_parse_error && d.conn.is_some() {
+                let lost: Vec<usize> = d.tokens.by_fd.iter().filter(|(fd, t)| !all_files.contains(t) && !Tokens::is_open(**fd)).map(|(_, t)| *t).collect();
+                if !lost.is_empty() {
+                    rec.oracle_fail("C12", &format!("descriptors {:?} arrived, were not handed over and are closed", lost), &d.log);
+                }
             }
             seen_delivered = d.delivered.len();
         }
